@@ -878,6 +878,7 @@ def install(ctx):
         m = read_loc(r.loc)
         old = opt_sym(m.found(k), m.lookup(k)) if m.slots else NONE
         write_loc(r.loc, m.inserted(k, v))
+        ip.path.effect('map-mutate', 'insert', k)
         return old
 
     @M.reg('HashMap::remove')
@@ -889,6 +890,7 @@ def install(ctx):
             return NONE
         old = opt_sym(m.found(k), m.lookup(k))
         write_loc(r.loc, m.removed(k))
+        ip.path.effect('map-mutate', 'remove', k)
         return old
 
     @M.reg('HashMap::get')
@@ -977,6 +979,7 @@ def install(ctx):
         e, v = args
         m = read_loc(e.map_loc)
         write_loc(e.map_loc, MapM(m.slots + [(z3.BoolVal(True), e.key, v)]))
+        ip.path.effect('map-mutate', 'vacant.insert', e.key)
         return Ref(Loc(MapSlotRoot(e.map_loc, e.key)), True)
 
     @M.reg('Entry::or_insert')
